@@ -18,6 +18,11 @@ structure RtObs where
   dec : Option DRes
   deriving DecidableEq, Repr
 
+/-- what the model says the harness observes for Marshal followed by Unmarshal into `r` -/
+def rtModel (v r : VLA) : RtObs :=
+  let e := marshal v
+  { enc := e, dec := match e with | .ok b => some (unmarshal r b) | _ => none }
+
 /-- the inputs Marshal must reject -/
 def mustReject (v : VLA) : Bool :=
   v.count < 1 || v.count > 4 || v.rid < 0 || v.rid ≥ v.count ||
